@@ -663,3 +663,201 @@ Proof.
   - exact C.
   - exact E.
 Qed.
+
+(* ------------------------------------------------------------------ A2: a cancel request reaches every unit *)
+
+(* before the first shutdown signal cancel_state is at most ReportError, so that the first signal
+   always escalates it (and is therefore always broadcast) *)
+Definition sig_rank_inv (d : dstate) : Prop := d_sig d = None -> opt_rank (d_cancel d) <= 3.
+
+Lemma step_sig_rank d e d' evs rsp :
+  dstep_live d e = (Live d', evs, rsp) -> sig_rank_inv d -> sig_rank_inv d'.
+Proof.
+  unfold sig_rank_inv. intros H Hinv.
+  destruct e; step_inv H; kill_some; proj_simpl; intros Hs; try discriminate;
+    try (specialize (Hinv Hs)); cbn [opt_rank rank] in *; try lia.
+Qed.
+
+Lemma run_sig_rank h : forall d d',
+  final_state (Live d) h = Live d' -> sig_rank_inv d -> sig_rank_inv d'.
+Proof.
+  induction h as [|e h IH]; intros d d' H Hinv.
+  - cbn in H. inversion H; subst. exact Hinv.
+  - rewrite final_state_cons in H.
+    destruct (final_state_live_prefix _ _ _ H) as [d1 E1]. rewrite E1 in H.
+    unfold next_state in E1. cbn [dstep] in E1.
+    destruct (dstep_live d e) as [[s1 evs] rsp] eqn:E. cbn [fst] in E1. subst s1.
+    apply (IH _ _ H). eapply step_sig_rank; eauto.
+Qed.
+
+(* a shutdown signal that handle_event survives is always handed on to the units *)
+Lemma signal_broadcasts d ev d' evs rsp :
+  dstep_live d (SigShutdown ev) = (Live d', evs, rsp) -> sig_rank_inv d ->
+  broadcast_of (r_resp rsp) =
+  Some (BShutdown (match d_sig d with None => Once ev | Some _ => Twice end)).
+Proof.
+  unfold sig_rank_inv. intros H Hinv.
+  step_inv H; kill_some; proj_simpl; cbn [broadcast_of to_request]; try reflexivity.
+  all: try (specialize (Hinv eq_refl); destruct ev; cbn [event_to_cancel_reason opt_rank rank] in *; lia).
+  all: try (exfalso; cbn [to_request] in *; congruence).
+Qed.
+
+(* a step that announces (RunBeginCancel / RunBeginKill) makes the run loop broadcast a cancel request *)
+Lemma step_ann_broadcasts d e s' evs rsp :
+  dstep_live d e = (s', evs, rsp) -> existsb is_ann evs = true ->
+  cancel_request (broadcast_of (r_resp rsp)) = true.
+Proof.
+  intros H. destruct e; step_inv H; kill_some; proj_simpl;
+    cbn [existsb is_ann is_begin_cancel is_begin_kill cancel_reason_of is_some app orb
+         broadcast_of cancel_request];
+    try discriminate; try reflexivity.
+  all: try (match goal with e : shutdown_event |- _ => destruct e end; reflexivity).
+Qed.
+
+(* a step whose response is broadcast is not one in which handle_event addresses a single unit,
+   and it is not the start of a setup script *)
+Lemma step_broadcast_no_unicast d e s' evs rsp :
+  dstep_live d e = (s', evs, rsp) -> cancel_request (broadcast_of (r_resp rsp)) = true ->
+  r_unit rsp = None /\ (forall s, e <> ScriptStarted s).
+Proof.
+  intros H. destruct e; step_inv H; kill_some; proj_simpl;
+    cbn [broadcast_of cancel_request]; try discriminate; intros _; split; try reflexivity;
+    intros s0 Hs; discriminate.
+Qed.
+
+Lemma xsys_run_sys c : forall ls x x',
+  xsys_run c x ls = Some x' -> sys_run true c (x_sys x) ls = Some (x_sys x').
+Proof.
+  induction ls as [|l ls IH]; intros x x' H; cbn [xsys_run sys_run] in *.
+  - inversion H; subst. reflexivity.
+  - unfold xsys_step in H. destruct (sys_step true c (x_sys x) l) as [y1|] eqn:E; [|discriminate].
+    apply (IH _ _ H).
+Qed.
+
+Lemma sys_run_state u c : forall ls y y',
+  sys_run u c y ls = Some y' -> y_d y' = final_state (y_d y) (sevents_of ls).
+Proof.
+  induction ls as [|l ls IH]; intros y y' H; cbn [sys_run] in H.
+  - inversion H; subst. reflexivity.
+  - destruct (sys_step u c y l) as [y1|] eqn:E; [|discriminate].
+    rewrite (IH _ _ H). destruct l as [e|t]; cbn [sevents_of sys_step] in *.
+    + rewrite final_state_cons. unfold next_state.
+      destruct (dstep (y_d y) e) as [[s1 evs] rsp].
+      destruct (pstep c (y_ps y) e (r_hs rsp)); [|discriminate]. inversion E; subst. reflexivity.
+    + destruct (ps_phase (y_ps y) t); try discriminate.
+      destruct (0 <? y_mail y t); [|discriminate]. inversion E; subst. reflexivity.
+Qed.
+
+Theorem all_units c mf dbg ls x e x' d d' evs rsp :
+  cfg_ok c = true ->
+  xsys_run c (xsys0 c mf dbg) ls = Some x ->
+  xsys_step c x (SEvent e) = Some x' ->
+  y_d (x_sys x) = Live d -> dstep_live d e = (Live d', evs, rsp) ->
+  (exists ev, e = SigShutdown ev) \/ existsb is_ann evs = true ->
+  cancel_request (broadcast_of (r_resp rsp)) = true /\
+  (forall ev, e = SigShutdown ev ->
+     broadcast_of (r_resp rsp) =
+     Some (BShutdown (match d_sig d with None => Once ev | Some _ => Twice end))) /\
+  (forall t, unit_live (ps_phase (y_ps (x_sys x')) t) = true ->
+     y_mail (x_sys x') t = y_mail (x_sys x) t + 1) /\
+  (forall t, unit_gone (ps_phase (y_ps (x_sys x')) t) = true ->
+     y_mail (x_sys x') t = y_mail (x_sys x) t) /\
+  x_smail x' = x_smail x + (if ps_srun (y_ps (x_sys x')) then 1 else 0).
+Proof.
+  intros Hok Hrun Hstep Hd E Hcause.
+  pose proof (xsys_run_sys c _ _ _ Hrun) as Hsys. cbn [xsys0 x_sys] in Hsys.
+  pose proof (prompt_inv_run c ls Hok _ _ (prompt_inv_init c mf dbg) Hsys) as Hinv.
+  (* reachable: the signal-rank invariant *)
+  assert (Hrank : sig_rank_inv d).
+  { pose proof (sys_run_state _ _ _ _ _ Hsys) as Hst. cbn [sys0 y_d] in Hst. rewrite Hd in Hst.
+    symmetry in Hst. apply (run_sig_rank _ _ _ Hst). intros _. cbn. lia. }
+  assert (Hsigb : forall ev, e = SigShutdown ev ->
+            broadcast_of (r_resp rsp) =
+            Some (BShutdown (match d_sig d with None => Once ev | Some _ => Twice end))).
+  { intros ev ->. eapply signal_broadcasts; eauto. }
+  assert (Hb : cancel_request (broadcast_of (r_resp rsp)) = true).
+  { destruct Hcause as [[ev ->]|Hann].
+    - rewrite (Hsigb ev eq_refl). reflexivity.
+    - eapply step_ann_broadcasts; eauto. }
+  destruct (step_broadcast_no_unicast _ _ _ _ _ E Hb) as [Hnu Hnss].
+  (* the step of the system *)
+  unfold xsys_step in Hstep.
+  destruct (sys_step true c (x_sys x) (SEvent e)) as [y'|] eqn:Es; [|discriminate].
+  pose proof (prompt_inv_step c _ _ _ Hok Hinv Es) as Hinv'.
+  inversion Hstep; subst x'; clear Hstep. cbn [x_sys x_smail].
+  cbn [sys_step] in Es. rewrite Hd in Es |- *. cbn [dstep] in Es |- *. rewrite E in Es |- *.
+  destruct (pstep c (y_ps (x_sys x)) e (r_hs rsp)) as [ps'|] eqn:Ep; [|discriminate].
+  inversion Es; subst y'; clear Es. cbn [y_mail y_ps y_d] in *.
+  unfold prompt_inv in Hinv'. cbn [y_d y_ps] in Hinv'. destruct Hinv' as [Hsim' _].
+  split; [exact Hb|]. split; [exact Hsigb|]. split; [|split].
+  - intros t Hl. unfold deliver. rewrite Hb, Hnu. cbn [andb].
+    pose proof (sim_phase _ _ _ Hsim' t) as Hrel.
+    destruct (ps_phase ps' t); cbn [unit_live] in Hl; try discriminate; cbn [phase_rel] in Hrel;
+      destruct Hrel as ((past & Hl' & _) & _); rewrite Hl'; cbn [is_some]; lia.
+  - intros t Hg. unfold deliver. rewrite Hb, Hnu. cbn [andb].
+    pose proof (sim_phase _ _ _ Hsim' t) as Hrel.
+    assert (Hno : lookup t (d_running d') = None).
+    { destruct (ps_phase ps' t); cbn [unit_gone] in Hg; try discriminate; cbn [phase_rel] in Hrel;
+        tauto. }
+    rewrite Hno. cbn [is_some]. lia.
+  - unfold script_deliver. rewrite Hb. cbn [andb]. rewrite (sim_script _ _ _ Hsim').
+    destruct e; try (destruct (ps_srun ps'); reflexivity).
+    exfalso. eapply Hnss; reflexivity.
+Qed.
+
+(* ------------------------------------------------------------------ example runs (for Properties/Run.v) *)
+
+(* three selected tests (0 ungrouped; 1 and 2 in group 0 with max-threads 1; test 1 has a retry) and
+   two unselected ones, test-threads = 2 *)
+Definition ex_rcfg : rcfg :=
+  mk_rcfg [SrcSel (mkitem 0 1 None); SrcUnsel 3; SrcSel (mkitem 1 1 (Some 0));
+           SrcSel (mkitem 2 1 (Some 0)); SrcUnsel 4]
+          (fun t => if t =? 1 then 2 else 1) 0 2 [(0, 1)].
+
+Definition ex_schedule : list rlabel :=
+  [RSched OpFill; REvent (Skipped 3); REvent (Started 0); REvent (Started 1);
+   REvent (Finished 0 (p_att 1 1)); RSched (OpComplete 0);
+   REvent (AttemptFailedWillRetry 1 (f_att 1 2)); REvent (RetryStarted 1 2 2);
+   REvent (Finished 1 (p_att 2 2)); RSched (OpComplete 1);
+   REvent (Started 2); REvent (Skipped 4); REvent (Finished 2 (l_att 1 1)); RSched (OpComplete 2)].
+
+(* finding F7 in the composed model: test-threads 3, group 0 max-threads 2, a = 0 (group 0,
+   weight 1), b = 1 (group 0, weight 2), c = 2 (no group, weight 2); a finishes before c *)
+Definition f7_rcfg : rcfg :=
+  mk_rcfg [SrcSel (mkitem 0 1 (Some 0)); SrcSel (mkitem 1 2 (Some 0)); SrcSel (mkitem 2 2 None)]
+          (fun _ => 1) 0 3 [(0, 2)].
+
+Definition f7_schedule : list rlabel :=
+  [RSched OpFill; REvent (Started 0); REvent (Started 2); REvent (Finished 0 (p_att 1 1));
+   RSched (OpComplete 0); REvent (Finished 2 (p_att 1 1)); RSched (OpComplete 2)].
+
+(* what a closed example looks at *)
+Definition run_summary (o : option rstate) : option (nat * nat * nat * bool * option (option cancel_reason)) :=
+  match o with
+  | None => None
+  | Some s => Some (length (running (r_q s)), length (unstarted (r_q s)), r_nskip s, panicked (r_q s),
+                    match r_d s with Live d => Some (d_cancel d) | Panicked => None end)
+  end.
+
+Definition ex_sys_cfg : cfg := mk_cfg [0; 1; 2] [] (fun t => if t =? 2 then 2 else 1) 1.
+
+Definition ex_sys_schedule : list sevent :=
+  [SEvent (ScriptStarted 0); SEvent (ScriptFinished 0 Pass); SEvent (Started 0); SEvent (Started 1);
+   SEvent (Started 2); SEvent (AttemptFailedWillRetry 2 (f_att 1 2)); SEvent (Finished 1 (p_att 1 1))].
+
+Definition mail_summary (o : option xsys) (ts : list tid) : option (list N * N) :=
+  match o with Some x => Some (map (y_mail (x_sys x)) ts, x_smail x) | None => None end.
+
+(* ------------------------------------------------------------------ the two projections of a run *)
+
+Lemma rrun_projections r mf dbg xs s :
+  cfg_ok (rc_cfg r) = true ->
+  rrun r (rinit r mf dbg) xs = Some s ->
+  wf_history (rc_cfg r) mf dbg (events_of xs) = true /\
+  r_d s = final_state (Live (init_for (rc_cfg r) mf dbg)) (events_of xs) /\
+  r_q s = fst (fq_run (fq_new (rc_gm r) (rc_grps r) (rc_items r)) (ops_of xs)).
+Proof.
+  intros Hok Hrun. destruct (rrun_wf r _ _ _ Hrun) as [Hwf Hfin]. cbn [rinit r_d r_ps] in Hwf, Hfin.
+  split; [|split; [exact Hfin | exact (rrun_sched r _ _ _ Hrun)]].
+  unfold wf_history, wf_protocol. apply andb_true_iff. split; [exact Hok | exact Hwf].
+Qed.
